@@ -67,6 +67,7 @@ PROPS = {
         "modules": [T + "C01"],
         "theorems": [(T + "C01.tables", T + "C01"),
                      (T + "C01.params_eq", T + "C01"),
+                     (T + "C01.pairings_order_irrelevant", T + "C01"),
                      (T + "C01.generate_eq_spec", T + "C01"),
                      (T + "C01.generate_chunked_eq_spec", T + "C01"),
                      (T + "C01.kat_lovak", T + "C01"),
